@@ -32,8 +32,10 @@ RD = {"_GET": "RSg GGet", "_POST": "RSg GPost", "_COOKIE": "RSg GCookie", "_SERV
       "static_iter": "RLocal",
       # except() on a key of the query string, and that key read through the request object
       "rexceptq": "RObj", "rtok": "RObj", "rtokq": "RObj",
-      # a plain recursive function parked 14 frames deep; a shared prototype object cloned per request
+      # a plain recursive function parked 14 frames deep; a shared service object with __get, requests parked inside __get while another reads the same undeclared property; a shared prototype object cloned per request
       "deep": "RLocal", "cap_clone": "RLocal",
+      # a service object shared by all requests whose class has __get; the request parks inside __get
+      "cap_magic": "RLocal",
       # per-request data through methods of the request object (all / only / except / query / Cookie header / formValue /
       # postFormValue / fullUrl / bind into a DTO with property defaults)
       "rall": "RObj", "ronly": "RObj", "rexcept": "RObj", "rqueryp": "RObj", "rcookie": "RObj", "rformval": "RObj",
@@ -208,6 +210,16 @@ def gated_cases(rng, tier):
     n = 40
     cases.append({"segs": [["deep", "local"]], "nreq": n, "schedule": [i for i in range(n) for _ in range(2)], "route": "mux", "mw": 0, "gen": "deep-frames-in-flight"})
     cases.append({"segs": [["deep", "local"]], "nreq": n, "schedule": [i for i in range(n) for _ in range(2)], "route": "handler", "gen": "deep-frames-in-flight"})
+    # a shared object with __get: request A parked INSIDE __get('greeting') while B reads the same undeclared property
+    mprog = [["cap_magic", "local"], ["cap_magic", "rquery"]]
+    msch = [[0, 1] * 6, [0, 0, 1, 1, 1, 1, 1, 0, 0, 0], [0, 0, 1, 1, 0, 1, 1, 1, 0, 0], [1, 1, 0, 0, 0, 0, 0, 1, 1, 1]]
+    for _ in range(8):
+        x = [0] * 5 + [1] * 5
+        rng.shuffle(x)
+        msch.append(x)
+    for sch in msch:
+        cases.append({"segs": mprog, "nreq": 2, "schedule": sch, "route": "mux", "mw": 0, "cap": True, "gen": "shared-object-magic-get"})
+    cases.append({"segs": mprog, "nreq": 3, "schedule": [0, 0, 1, 1, 2, 2, 2, 2, 1, 1, 0, 0], "route": "mux", "mw": 1, "cap": True, "gen": "shared-object-magic-get"})
     # read-only iteration of a shared static table: strictly alternating, nested windows and 12 shuffled schedules
     # (each request: entry + 3 parkings inside each of the two loops + 2 stage ends)
     iprog = [["static_iter", "local"], ["static_iter", "rquery"]]
@@ -307,7 +319,9 @@ def load_cases(rng, tier):
                       "rounds": 3 if tier == "quick" else 10, "route": "mux", "mw": n % 2, "onformat": n % 16 == 0, "warmup": True})
     # JSON bodies with string keys and values ($w->json): the encoder is Go code that no gate can stop inside, so this
     # is a matter of real parallelism: many requests in flight on many OS threads
-    cases.append({"segs": [["static_iter", "local"], ["static_iter", "rquery"]], "nreq": 32, "gomaxprocs": 8, "rounds": 3 if tier == "quick" else 10})
+    # (under load every static_iter read makes 1200 passes over the table: two requests must ENTER a foreach at the same moment)
+    cases.append({"segs": [["static_iter", "local"], ["static_iter", "rquery"]], "nreq": 32, "gomaxprocs": 16, "rounds": 3 if tier == "quick" else 10})
+    cases.append({"segs": [["static_iter"], ["static_iter"]], "nreq": 16, "gomaxprocs": 8, "rounds": 3 if tier == "quick" else 10, "route": "mux", "mw": 0})
     jprog = [["local", "rquery"], ["rall", "jsonbody"]]
     for n, procs, rounds in ((32, 8, 4), (64, 16, 6)) if tier == "quick" else ((16, 4, 10), (32, 8, 20), (64, 16, 20), (128, 16, 20)):
         cases.append({"segs": jprog, "nreq": n, "gomaxprocs": procs, "rounds": rounds, "route": "mux", "mw": 0, "warmup": True})
